@@ -11,7 +11,7 @@ Generic theorems (every n, k, every matrices):
 * `packing_bound` — `m` representatives modulo the stabilizer group with pairwise disjoint
   supports for every listed logical ⇒ every non-trivial logical has weight ≥ `m` (uses C04:
   a non-trivial logical anticommutes with some listed logical);
-* `exhaustive_bound`, `checker_sound` — soundness of the executable certificate checker
+* `exhaustive_bound`, `exhaustive_css_bound`, `checker_sound` — soundness of the executable certificate checker
   `checkDistance` (Model/Dist.lean) for EVERY packed code and certificate.
 
 Instance theorems `distance_<Class>_partial`: for every instance of the regenerated table of
@@ -22,7 +22,7 @@ kernel-checked with `decide +kernel`), the reported `d` is the true distance.
 FULL STATEMENT (not proved): for every class and every supported size (DESIGN.md §4),
 `IsDistance n H code.d`.  PROVED: the same for every supported size up to the table bound
 (2-D: L ≤ 6, 3-D: L ≤ 4, n ≤ 400) for which the untrusted search finds a certificate —
-everything except `Color666PlanarCode` L ≥ 2 and `Color666ToricCode` L ≥ 2 (6.6.6 colour codes
+everything except `Color666PlanarCode` L ≥ 3 and `Color666ToricCode` L ≥ 2 (6.6.6 colour codes
 have d² > n, so disjoint representatives cannot exist, and the enumeration below `d` is beyond
 the kernel).  `coverage_<Class>` pins how many instances of each table are certified, so a
 silently shrinking coverage breaks the build.  Missing for the full statement: all-sizes
@@ -63,6 +63,19 @@ theorem exhaustive_bound (c : MaskCode)
     ∀ v, IsNontrivialLogical c.n (c.stabs.map (unpackBits (2 * c.n))) v →
       c.d ≤ pauliWeight v :=
   checkExhaustive_sound c hv h
+
+/-- CSS codes: if every generator is pure X-type or pure Z-type and `checkExhaustiveCSS` accepts
+    (every pure X-type and every pure Z-type operator of weight `< d` is detected or commutes with
+    every listed logical), every non-trivial logical operator — of any type — has weight at
+    least `d`: the X part or the Z part of a non-trivial logical of a CSS code is a non-trivial
+    logical that is not heavier. -/
+theorem exhaustive_css_bound (c : MaskCode)
+    (hv : ValidCodeL c.n c.k (c.stabs.map (unpackBits (2 * c.n)))
+      (c.logX.map (unpackBits (2 * c.n))) (c.logZ.map (unpackBits (2 * c.n))))
+    (h : checkExhaustiveCSS c = true) :
+    ∀ v, IsNontrivialLogical c.n (c.stabs.map (unpackBits (2 * c.n))) v →
+      c.d ≤ pauliWeight v :=
+  checkExhaustiveCSS_sound c hv h
 
 /-- Soundness of the executable checks, for every packed code and every certificate: a valid
     code (`checkValidFast`) whose reported `d` is the weight of its lightest listed logical
@@ -123,7 +136,7 @@ theorem coverage_RotatedPlanar2DCode :
     Generated.RotatedPlanar2DCode.certified.length = 36 ∧ Generated.RotatedPlanar2DCode.all.length = 36 := by
   decide +kernel
 theorem coverage_Color666PlanarCode :
-    Generated.Color666PlanarCode.certified.length = 1 ∧ Generated.Color666PlanarCode.all.length = 6 := by
+    Generated.Color666PlanarCode.certified.length = 2 ∧ Generated.Color666PlanarCode.all.length = 6 := by
   decide +kernel
 theorem coverage_Color666ToricCode :
     Generated.Color666ToricCode.certified.length = 1 ∧ Generated.Color666ToricCode.all.length = 4 := by
@@ -179,6 +192,10 @@ example : IsDistance 18 (Generated.Toric2DCode.i3_3.stabs.map (unpackBits 36)) 3
     (`XXII` has weight 2 < 3) and no family of 3 disjoint representatives exists -/
 example : checkDistance { code422 with d := 3 } .exhaustive = false := by decide
 example : checkDistance code422 .exhaustive = true := by decide
+example : checkDistance code422 .exhaustiveCSS = true := by decide
+example : checkDistance { code422 with d := 3 } .exhaustiveCSS = false := by decide
+/-- a non-CSS code (generators `XZZX`-like) is refused by the CSS-restricted enumeration -/
+example : checkDistance { code422 with stabs := [0x69, 0x96] } .exhaustiveCSS = false := by decide
 example : checkDistance code422 (.packing [0, 1, 0, 1, 0, 2, 0, 2]) = true := by decide
 example : checkDistance code422 (.packing [0, 0, 0, 1, 0, 2, 0, 2]) = false := by decide
 /-- on the 3×3 toric code a claimed `d = 4` is refuted by the enumeration -/
